@@ -109,6 +109,59 @@ end Dawgs.C07
 namespace Dawgs.C07
 open Dawgs.Grammar Dawgs.C08
 
+theorem mapInsert_append (acc : List (String × Expr)) (k : String) (v : Expr) (h : ∀ p ∈ acc, p.1 < k) :
+    mapInsert acc k v = acc ++ [(k, v)] := by
+  unfold mapInsert
+  have hf : acc.filter (fun p => p.1 != k) = acc := by
+    apply List.filter_eq_self.2
+    intro p hp
+    have := h p hp
+    simp only [bne_iff_ne, ne_eq]
+    intro he; rw [he] at this; exact absurd this (String.lt_irrefl k)
+  have h1 : acc.filter (fun p => decide (p.1 < k)) = acc := List.filter_eq_self.2 (fun p hp => by simpa using h p hp)
+  have h2 : acc.filter (not ∘ fun p => decide (p.1 < k)) = [] := List.filter_eq_nil_iff.2 (fun p hp => by simpa using h p hp)
+  rw [hf]
+  simp only [List.partition_eq_filter_filter, h1, h2]
+  simp
+
+theorem foldl_mapInsert_sorted : ∀ (kvs acc : List (String × Expr)),
+    (∀ p ∈ acc, ∀ q ∈ kvs, p.1 < q.1) → pairwiseLt (kvs.map (·.1)) = true →
+    kvs.foldl (fun a p => mapInsert a p.1 p.2) acc = acc ++ kvs
+  | [], acc, _, _ => by simp
+  | q :: qs, acc, hlt, hs => by
+    simp only [List.map_cons, pairwiseLt, Bool.and_eq_true, List.all_eq_true, decide_eq_true_eq] at hs
+    rw [List.foldl_cons, mapInsert_append acc q.1 q.2 (fun p hp => hlt p hp q (by simp))]
+    rw [foldl_mapInsert_sorted qs (acc ++ [(q.1, q.2)]) _ hs.2]
+    · simp
+    · intro p hp r hr
+      rcases List.mem_append.1 hp with h | h
+      · exact hlt p h r (by simp [hr])
+      · simp at h; subst h
+        exact hs.1 r.1 (List.mem_map_of_mem hr)
+
+theorem zip_fst_snd' {α β} : ∀ (ps : List (α × β)), (ps.map (·.1)).zip (ps.map (·.2)) = ps
+  | [] => rfl
+  | p :: ps => by simp [zip_fst_snd' ps]
+
+theorem unescapeKey_simple' (k : String) (h : simpleKey k = true) : unescapeKey k = k := by
+  unfold simpleKey at h
+  cases hk : k.toList with
+  | nil => simp [hk] at h
+  | cons c cs =>
+    simp only [hk, Bool.and_eq_true, Bool.or_eq_true] at h
+    have hc : c ≠ '`' := by
+      intro hc; subst hc
+      rcases h.1 with h1 | h1 <;> simp (config := { decide := true }) at h1
+    unfold unescapeKey
+    simp [hk, hc]
+
+theorem sizeL_joinGroups_ge (sep : Tree) : ∀ gs : List (List Tree), sizeL gs.flatten ≤ sizeL (joinGroups sep gs)
+  | [] => by simp [joinGroups]
+  | [g] => by simp [joinGroups]
+  | g :: h :: rest => by
+    have := sizeL_joinGroups_ge sep (h :: rest)
+    simp [joinGroups] at *; omega
+
 /-- hypothesis on nested full expressions (smaller nesting depth) -/
 def RecOK (N : Names) (recT : Expr → Tree) (recW : Expr → Bool) : Prop :=
   ∀ e g, recW e = true → 2 * size (recT e) + 2 ≤ g → bExpr N g (recT e) = .ok e
@@ -146,6 +199,50 @@ theorem filter_exprNodes (sep : Tree) (hsep : sep.rootRule = none) (es : List Ex
   intro x hx
   obtain ⟨e, _, rfl⟩ := List.mem_map.1 hx
   exact ⟨_, rfl⟩
+
+/-- one rule's kids among the `key : value` groups of a map literal -/
+theorem filter_mapEntries (sep : Tree) (hsep : sep.rootRule = none) (rule : String) (pick : String × Expr → Tree)
+    (hpick : ∀ p, (mapEntry N recT p).filter (isRuleKid N rule) = [pick p]) :
+    ∀ kvs : List (String × Expr), (joinGroups sep (kvs.map (mapEntry N recT))).filter (isRuleKid N rule) = kvs.map pick
+  | [] => by simp [joinGroups]
+  | [p] => by simp [joinGroups, hpick p]
+  | p :: q :: rest => by
+    have ih := filter_mapEntries sep hsep rule pick hpick (q :: rest)
+    have hs : isRuleKid N rule sep = false := by simp [isRuleKid, hsep]
+    simp only [List.map_cons, joinGroups, List.filter_append, List.filter_cons, hs, hpick p] at ih ⊢
+    simp [ih]
+
+theorem bMap_tMap (kvs : List (String × Expr)) (g : Nat) (hw : wMap recW kvs = true) (hg : 2 * size (tMap N recT kvs) + 2 ≤ g) :
+    bMap N g (tMap N recT kvs) = .ok (.map kvs) := by
+  simp only [wMap, Bool.and_eq_true, List.all_eq_true] at hw
+  simp only [tMap, size_nd, sizeL_append, sizeL_cons', size_lf, sizeL_nil'] at hg
+  obtain ⟨g', rfl⟩ : ∃ g', g = g' + 5 := ⟨g - 5, by omega⟩
+  have hk := filter_mapEntries hN recT recW Hrec (N.lf "T__6" ",") rfl "oC_PropertyKeyName" (fun p => schemaName N "oC_PropertyKeyName" p.1)
+    (by intro p; bsimp [mapEntry, schemaName, exprNode]) kvs
+  have he := filter_mapEntries hN recT recW Hrec (N.lf "T__6" ",") rfl "oC_Expression" (fun p => exprNode N (recT p.2))
+    (by intro p; bsimp [mapEntry, schemaName, exprNode]) kvs
+  have hsz := sizeL_joinGroups_ge (N.lf "T__6" ",") (kvs.map (mapEntry N recT))
+  have hszE : sizeL (kvs.map (fun p => exprNode N (recT p.2))) ≤ sizeL ((kvs.map (mapEntry N recT)).flatten) := by
+    clear hw hg hk he hsz
+    induction kvs with
+    | nil => simp
+    | cons p ps ih => simp [mapEntry] at ih ⊢; omega
+  have hm : mapM' (bExpr N (g' + 4)) (kvs.map (fun p => exprNode N (recT p.2))) = .ok (kvs.map (·.2)) := by
+    have := mapM_exprNodes hN recT recW Hrec (kvs.map (·.2)) (g' + 4)
+      (by simp only [List.all_map, List.all_eq_true]; intro p hp; exact (hw.1 p hp).2)
+      (by rw [List.map_map]; exact (by omega : 2 * sizeL (kvs.map (fun p => exprNode N (recT p.2))) + 2 ≤ g' + 4))
+    rw [List.map_map] at this
+    exact this
+  have hkeys : (kvs.map (fun p => schemaName N "oC_PropertyKeyName" p.1)).map (fun k => unescapeKey (getText (g' + 4 + 1) k)) = kvs.map (·.1) := by
+    rw [List.map_map]
+    apply List.map_congr_left
+    intro p hp
+    have hs : simpleKey p.1 = true := (hw.1 p hp).1
+    simp [Function.comp, getText_schemaName hN (g' + 1), unescapeKey_simple' p.1 hs]
+  rw [show g' + 5 = (g' + 4) + 1 from rfl, bMap]
+  simp only [kidsOfRule, tMap, kids_nd, List.filter_append, hk, he]
+  bsimp [hm, hkeys, zip_fst_snd']
+  exact foldl_mapInsert_sorted kvs [] (by simp) hw.2
 
 theorem bAtom_tAtom (e : Expr) (g : Nat) (hw : wAtom recW e = true) (hg : 2 * size (tAtom N recT e) + 2 ≤ g) :
     bAtom N g (tAtom N recT e) = .ok e := by
@@ -199,6 +296,15 @@ theorem bAtom_tAtom (e : Expr) (g : Nat) (hw : wAtom recW e = true) (hg : 2 * si
     have hf := filter_exprNodes hN recT recW Hrec (N.lf "T__6" ",") rfl es
     bsimp [bAtom, bLiteral, tAtom, tAtomInner, hf, hm]
     rfl
+  | map kvs =>
+    simp only [wAtom] at hw
+    simp only [tAtom, tAtomInner, size_nd, sizeL_cons', sizeL_nil'] at hg
+    obtain ⟨g', rfl⟩ : ∃ g', g = g' + 2 := ⟨g - 2, by omega⟩
+    have hm := bMap_tMap hN recT recW Hrec kvs g' hw (by omega)
+    have hmn : ∃ ks, tMap N recT kvs = N.nd "oC_MapLiteral" ks := ⟨_, rfl⟩
+    obtain ⟨ks, hks⟩ := hmn
+    rw [hks] at hm
+    bsimp [bAtom, bLiteral, tAtom, tAtomInner, hks, hm]
   | paren x =>
     simp only [wAtom] at hw
     simp [tAtom, tAtomInner] at hg
